@@ -64,7 +64,7 @@ def replay_obj(progs, specs, grp, rs, why, pr=None):
             "unclaimed": [x["uncl"] for x in pr["preds"]] if pr else None,
             "reference_accepts_greedy": [sorted([sorted([k, list(v)] for k, v in m) for m in x["accG"]]) for x in pr["preds"]] if pr else None,
             "members": [{"spec": specs[m["si"]]["str"], "prog": specs[m["si"]].get("prog", 0), "env": list(m["env"]), "argv": list(m["argv"]),
-                         "prerun": [list(x) for x in m.get("prerun", [])], "rawbyte": bool(m.get("rawbyte")), "posthelp": bool(m.get("posthelp"))} for m in grp["members"]],
+                         "prerun": [list(x) for x in m.get("prerun", [])], "rawbyte": bool(m.get("rawbyte")), "posthelp": bool(m.get("posthelp")), "prespec": m.get("prespec")} for m in grp["members"]],
             "observed": [{k: r.get(k) for k in ("ran", "err", "panic", "log", "hang", "crash") if k in r} for r in rs], "why": why}
 
 
